@@ -96,6 +96,55 @@ def _manual_escape_ok(pattern, esc, call):
     return part_ok(pattern)
 
 
+def _compile_lit_interpreted(chk, m):
+    """R3v: every compile_lit of the SQL back ends interpreted over terms for a universe of python values x types"""
+    from ..catalogue import DT
+    from ..interp import Native, Obj, PyRaise, SymbolicBranch, SymNS, Term, Var
+    from ..program import Program
+    from ..rules.c17 import m_types_env
+
+    prog = Program(chk.repo, m_types_env(m), primary="backend.sql")
+    I, F, S, B = DT("Int64"), DT("Float64"), DT("String"), DT("Bool")
+    values = [(-1, I), (0, I), (7, I), (-1.5, F), (2.5, F), (float("nan"), F), (float("inf"), F), (float("-inf"), F), (None, F), (None, I), (None, S), ("a'b%_", S), (True, B)]
+    n = 0
+    for short, cname in (("backend.sql", "SqlImpl"), ("backend.sqlite", "SqliteImpl"), ("backend.duckdb", "DuckDbImpl"), ("backend.mssql", "MsSqlImpl"), ("backend.postgres", "PostgresImpl"), ("backend.ibm_db2", "IbmDb2Impl")):
+        try:
+            mod = chk.repo.mod(short)
+        except AnalysisError:
+            continue
+        try:
+            cls_ = prog.env_of(mod)[cname]
+        except KeyError:
+            continue
+        f = cls_.methods.get("compile_lit")
+        if f is None or f.owner is not cls_:
+            continue
+        for val, dt in values:
+            for const in (True, False):
+                o = Obj(cls_)
+                o.attrs.update({"sqa_type": Native(lambda t: Var(f"sqltype:{t!r}"), "cls.sqa_type"), "nan": Native(lambda: Var("nan"), "cls.nan"), "inf": Native(lambda: Var("inf"), "cls.inf")})
+                lit = prog.new("tree.col_expr", "LiteralCol", val=val, _dtype=DT("Const", dt) if const else dt, _ftype=None)
+                n += 1
+                label = f"{cname}.compile_lit({val!r}: {'const ' if const else ''}{dt!r})"
+                try:
+                    r = prog.call(f.bind(o), [lit])
+                except PyRaise as p_:
+                    chk.ob("R3v", mod, f.node, label, False, f"{label} raises {p_.name}: {p_.msg} - a literal the type checker accepts cannot be compiled")
+                    continue
+                except (AnalysisError, SymbolicBranch) as e:
+                    chk.undecided.append(f"R3v: {label} not interpreted ({str(e)[:100]})")
+                    continue
+                ok = isinstance(r, (Term, Var))
+                why = f"returns {r!r}"
+                if ok and isinstance(val, (int, float)) and not isinstance(val, bool) and val == val and val < 0 and val != float("-inf"):
+                    # a negative number must be self-delimiting: CAST(..), a function call or a Grouping - never a bare inline literal
+                    top = r.fn.split(".")[-1] if isinstance(r, Term) else ""
+                    ok = top in ("cast", "Grouping", "type_coerce") or (isinstance(r, Term) and r.fn.startswith("op:"))
+                    why = f"builds {r!r}: a bare inline negative literal (`-` in front of it gives `--`, a SQL comment)"
+                chk.ob("R3v", mod, f.node, label, ok, f"{label} {why}")
+    chk.floor("R3v", "literal compilations interpreted", n, 40)
+
+
 def run(chk):
     repo = chk.repo
     chk.explanation = (
@@ -106,6 +155,7 @@ def run(chk):
     chk.rule("R1", "every LIKE-family call passes autoescape=True or an escape= character")
     chk.rule("R2", "the argument of text()/literal_column()/.op() is a string constant, never built from a runtime value")
     chk.rule("R3", "every compile_lit routes the Python value through sqa.literal(.., literal_execute=True) or sqa.cast")
+    chk.rule("R3v", "compile_lit of every SQL back end interpreted over terms for numbers (negative, zero, nan, +-inf), null of every type, strings and booleans, const and non-const: compiles, and a negative number is self-delimiting")
     chk.rule("R4", "every statement .compile() uses literal_binds and the dialect of its own back end")
     chk.rule("R5", "Polars regex-by-default string functions get an explicit literal= argument")
     chk.rule("R6", "the LiteralCol branch of SQL compile_col_expr returns compile_lit(expr) or the raw value for const parameters")
@@ -264,6 +314,9 @@ def run(chk):
                                f"compile_lit returns the SQL NULL keyword object (`{norm(r.value)[:60]}`) instead of a typed bound literal: "
                                "SQLAlchemy turns `col == <null()>` into `col IS NULL`, the null literal is no longer compared as data")  # fmt: skip
     chk.floor("R1", "LIKE-family call sites", n_like, 11)
+    from ..model import model_of as _mo
+
+    _compile_lit_interpreted(chk, _mo(chk))
     chk.floor("R2", "raw-text call sites", n_raw, 14)
     chk.floor("R3", "compile_lit definitions", n_lit, 2)
     chk.floor("R4", "compile() call sites", n_compile, 4)
